@@ -331,7 +331,7 @@ func judgeOne(module string, events [][]byte, extra map[string][]byte, offset in
 	for k, v := range extra {
 		files[k] = v
 	}
-	r, err := RunTLC(TLCOpts{Module: module, Workers: 1, Files: files, Timeout: 30 * time.Minute, Heap: "6g"})
+	r, err := RunTLC(TLCOpts{Module: module, Workers: 1, Files: files, Timeout: 60 * time.Minute, Heap: "6g"})
 	jr.TLC = r
 	if err != nil {
 		return jr, err
